@@ -202,7 +202,10 @@ def selftest(ctx):
     b = []
     c = copy.deepcopy(good); c['t2'][3] += ' '; b.append(('one line of the second pass changed', c, 'text-fixpoint'))
     c = copy.deepcopy(good); c['t2'].insert(2, ''); b.append(('blank line grown inside the text', c, 'text-fixpoint'))
-    c = copy.deepcopy(good); c['ir2'][-1] = c['ir2'][-1].replace('Sum', 'Product').replace('IntLiteral[2]', 'IntLiteral[3]'); b.append(('expression tree of the re-read IR changed', c, 'ir-identical'))
+    c = copy.deepcopy(good)
+    k = next(i for i, e in enumerate(c['ir2']) if ' Assignment ' in e)
+    c['ir2'][k] = c['ir2'][k].replace('IntLiteral[2]', 'IntLiteral[3]')
+    b.append(('expression tree of the re-read IR changed', c, 'ir-identical'))
     c = copy.deepcopy(good); del c['ir2'][len(c['ir2']) // 2]; b.append(('node missing in the re-read IR', c, 'ir-identical'))
     ok_pad = copy.deepcopy(good); ok_pad['t2'] = [''] + ok_pad['t2'] + ['', '']; ok_pad['ir2'] = ok_pad['ir2'] + ['BLANK']
     v = ctx.validate('Trace_RoundTrip', 'Trace_RoundTrip', [good, ok_pad] + [x[1] for x in b], shards=1)
